@@ -1,7 +1,7 @@
 """C14 - every started node is stopped exactly once, in reverse order, whatever fails (fault enumeration)."""
 from __future__ import annotations
 import copy
-from .runner import Result, Violation
+from .runner import Result, Violation, scaled
 from .gen_core import gen_case
 from . import model as M
 
@@ -121,7 +121,7 @@ def add_dynamic_children(rng, base):
 
 
 def generate(rng, tier, seed):
-    nprog = 30 if tier == "quick" else 300
+    nprog = scaled(30 if tier == "quick" else 300)
     cases = []
     for p in range(nprog):
         base = gen_case(rng, f"c14_{seed}_{p}", n_nodes=rng.choice([2, 3, 5, 8]), max_depth=2,
